@@ -440,6 +440,10 @@ Fixpoint restore_go (fuel : nat) (x : str) (lits : list str) : res str :=
         match take_while is_digit r with
         | ((_ :: _) as ds, d :: r2) =>
           if Ascii.eqb d c_dq then
+            (* two masked literals side by side read as one literal with a doubled quote *)
+            if (match r2 with e :: _ => Ascii.eqb e c_dq | [] => false end)
+            then Unmodelled (s "adjacent masked literals")
+            else
             match nth_error lits (nat_of_digits ds 0) with
             | Some lit => do t <- restore_go f r2 lits; Ok (nbsp_runs lit ++ t)
             | None => Err (s "IndexError")
@@ -480,9 +484,11 @@ Definition entity (pt : ptype) (acc : attr_acc) (lits : list str) (dec : str) : 
   let dec := remove_blanks dec in
   do npi <- match paren_split c_eq dec with
             | [n] => Ok (strip n, false, None)
-            | n :: i :: _ =>
-              match i with
-              | c :: i' => if Ascii.eqb c c_gt then Ok (n, true, Some i') else Ok (n, false, Some i)
+            | n :: i :: more =>
+              (* only the first "=" separates name and value: the other parts are joined again *)
+              let value := join [c_eq] (i :: more) in
+              match value with
+              | c :: v' => if Ascii.eqb c c_gt then Ok (n, true, Some v') else Ok (n, false, Some value)
               | [] => Err (s "IndexError")
               end
             | [] => Ok ([], false, None)
@@ -531,31 +537,33 @@ Definition starts_word_is (r : str) (w : str) : bool :=
   | [] => false
   end.
 
+(* what must follow the type word: not "is" / "default" for type / class, then "(", one of : , *
+   or (with white space before it) a word character *)
+Definition variable_tail_ok (w1 r : str) : bool :=
+  let lookahead :=
+    if seqb w1 (s "type") then negb (starts_word_is r (s "is"))
+    else if seqb w1 (s "class") then negb (starts_word_is r (s "is")) && negb (starts_word_is r (s "default"))
+    else true in
+  lookahead &&
+  (match r with
+   | c :: r2 =>
+     let r' := skip_ws r in
+     match r' with
+     | d :: _ =>
+       Ascii.eqb d c_lpar || Ascii.eqb d c_colon || Ascii.eqb d c_comma || Ascii.eqb d c_star
+       || (is_space c && is_word d)
+     | [] => false
+     end
+   | [] => false
+   end).
+
 Fixpoint variable_re_alts (alts : list (str * option str)) (x : str) : bool :=
   match alts with
   | [] => false
   | (w1, w2) :: alts' =>
     let m := match w2 with None => match_ci w1 x | Some w => match_two w1 w x end in
-    let ok (r : str) : bool :=
-      let lookahead :=
-        if seqb w1 (s "type") then negb (starts_word_is r (s "is"))
-        else if seqb w1 (s "class") then negb (starts_word_is r (s "is")) && negb (starts_word_is r (s "default"))
-        else true in
-      lookahead &&
-      (match r with
-       | c :: r2 =>
-         (* white space, then "(" or one of ":" "," "*", or (with white space before it) a word character *)
-         let r' := skip_ws r in
-         match r' with
-         | d :: _ =>
-           Ascii.eqb d c_lpar || Ascii.eqb d c_colon || Ascii.eqb d c_comma || Ascii.eqb d c_star
-           || (is_space c && is_word d)
-         | [] => false
-         end
-       | [] => false
-       end) in
     match m with
-    | Some r => if ok r then true else variable_re_alts alts' x
+    | Some r => if variable_tail_ok w1 r then true else variable_re_alts alts' x
     | None => variable_re_alts alts' x
     end
   end.
@@ -690,12 +698,13 @@ Definition record_attribute (st : attr_state) (lits : list str) (g1 g2 : str) : 
       do st <- r;
       if seqb attr (s "parameter") then
         match paren_split c_eq name with
-        | n :: v :: _ =>
+        | n :: more =>
           let n := lower (strip n) in
-          (* format_initial_value: like an initialisation on the declaration *)
-          do v' <- restore (comma_space (remove_blanks v)) lits;
+          (* only the first "=" separates name and value (the other parts are joined again; no "="
+             at all gives the empty value); formatted like an initialisation on the declaration *)
+          do v' <- restore (comma_space (remove_blanks (join [c_eq] more))) lits;
           Ok (mkas (dict_append (attr_key n) attr (as_attr st)) (pdict_set n v' (as_param st)))
-        | _ => Err (s "IndexError")
+        | [] => Err (s "IndexError")
         end
       else Ok (mkas (dict_append (attr_key name) attr (as_attr st)) (as_param st)) in
     fold_left step (paren_split c_comma stmnt) (Ok st).
